@@ -116,11 +116,10 @@ Proof.
   destruct cbb.
   - assert (forall s p', okl s -> okl (fst (parse_cannot_be_a_base_path CSetter s p'))) as Hc.
     { intros s p' Hx. apply (parse_cannot_be_a_base_path_okl _ P_ok); assumption. }
-    match type of Hs1 with context [match p with [] => ?a | x :: r => @?b x r end] =>
-      destruct (match p with [] => a | x :: r => b x r end) as [s p'] eqn:Ep end.
+    match type of Hs1 with context [match ?m with Some r => @?a r | None => ?b end] =>
+      destruct (match m with Some r => a r | None => b end) as [s p'] eqn:Ep end.
     assert (okl s) as Hs2.
-    { destruct p as [|x r]; [inversion Ep; subst; exact H0|].
-      rewrite match47 in Ep. destruct (x =? 47); inversion Ep; subst; okt P_ok. }
+    { destruct (inp_split_prefix_char 47 (input_new_no_trim p)); inversion Ep; subst; [okt P_ok | exact H0]. }
     injection Hs1 as Hx. rewrite <- Hx. apply Hc. exact Hs2.
   - ob Hs1 b Hb. destruct b as [[s hh] rem]. inversion Hs1; subst.
     apply unpres_some in Hb. eapply parse_path_start_okl; [exact P_ok | exact Hb | exact H0].
